@@ -1,5 +1,6 @@
 import RpycModel.Spec.Published
 import RpycModel.Spec.Code
+import RpycModel.Gen.Recorded
 import RpycModel.Brine.Closed
 /-
 Helper lemmas for C19: the regenerated constants equal the published ones (one lemma per constant, so a
@@ -381,5 +382,37 @@ theorem boxL_eq : ∀ (xs : List Code.Obj), Code.boxL xs = Boxed.toVals (boxedOf
   | [] => rfl
   | x :: xs => by simp [Code.boxL, boxedOfL, Boxed.toVals, box_eq x, boxL_eq xs]
 end
+
+/-! ### the probes of Gen/Recorded.lean, as the model sees them -/
+
+def probeP : Val := .tuple [.str [112, 114, 111, 98, 101, 46, 80], .int 11, .int 22]          -- ("probe.P", 11, 22)
+def probeObj : Val := .tuple [.str [112, 114, 111, 98, 101, 46, 79, 98, 106], .int 44, .int 55] -- ("probe.Obj", 44, 55)
+def probeSvc : Val := .tuple [.str [112, 114, 111, 98, 101, 46, 83, 118, 99], .int 66, .int 77] -- ("probe.Svc", 66, 77)
+
+/-- the five objects `Connection._box` was run on when the facts were recorded -/
+def boxProbes : List (String × Code.Obj) :=
+  [("plain", .plain (.tuple [.int 1, .str [97], .tuple [.float 0x4004000000000000, .none]])),
+   ("tuple", .tup [.plain (.int 5), .object probeObj]),
+   ("nested", .tup [.ownProxy probeP, .tup [.plain (.str [107]), .object probeObj], .plain (.bytes [])]),
+   ("object", .object probeObj),
+   ("proxy", .ownProxy probeP)]
+
+/-- handler numbers of the requests a probe emitted -/
+def requestHandlers (vs : List Val) : List (Option Nat) :=
+  vs.map (fun v => match Msg.ofVal? v with
+    | some (.request _ h _) => some h
+    | _ => none)
+
+def conformingMessage (v : Val) : Bool :=
+  match Msg.ofVal? v with
+  | some m => m.conforms
+  | none => false
+
+/-- the response `_dispatch_request` sent is a single published message of the right kind and sequence number -/
+def answeredWith (kind : Nat) (entry : Val × List Val) : Bool :=
+  match entry.1, entry.2 with
+  | .tuple [_, seq, _], [.tuple [k, seq', body]] =>
+    Val.beq k (.int (kind : Nat)) && Val.beq seq seq' && conformingMessage (.tuple [k, seq', body])
+  | _, _ => false
 
 end Rpyc.Spec
